@@ -92,12 +92,22 @@ func Enumerate(thorough bool, yield func(idx int, c Case)) int {
 				yield(idx, Case{p, "auto2", "none", 0, p2, "same", ver})
 				idx++
 			}
+			// ... and after a first transaction whose XA START (its first database operation) was refused
+			for k := 0; k < 1; k++ {
+				yield(idx, Case{p, "auto2", "db-error", k, "rollback", "same", ver})
+				idx++
+				// "auto2e": the second transaction starts before the coordinator's rollback of the first has been delivered
+				yield(idx, Case{p, "auto2e", "db-error", k, "rollback", "same", ver})
+				idx++
+			}
 		}
 	}
 	return idx
 }
 
 type runResult struct {
+	xid2      string
+	journal2  []memdb.Entry // database operations of the second transaction (auto2)
 	secondErr string
 	xid       string
 	stepErrs  []string
@@ -252,7 +262,7 @@ func run(e *sys.Env, c Case) *runResult {
 			}
 		}
 	}
-	if rr.xid != "" {
+	if rr.xid != "" && c.Shape != "auto2e" {
 		if c.Phase2 == "commit" && rr.bizErr == "" {
 			rr.phase2 = e.TC.DriveCommit(rr.xid)
 		} else {
@@ -264,7 +274,7 @@ func run(e *sys.Env, c Case) *runResult {
 	rr.journal = e.Srv.Journal()
 	rr.events = e.TC.Events()
 	rr.post = e.Srv.Snapshot()
-	if c.Shape == "auto2" && !rr.hung {
+	if (c.Shape == "auto2" || c.Shape == "auto2e") && !rr.hung {
 		// a second global transaction on the same handle: the pool hands the same connection out again
 		func() {
 			defer func() {
@@ -273,6 +283,13 @@ func run(e *sys.Env, c Case) *runResult {
 				}
 			}()
 			var xid2 string
+			mark := len(e.Srv.Journal())
+			defer func() {
+				if j := e.Srv.Journal(); len(j) >= mark {
+					rr.journal2 = j[mark:]
+				}
+				rr.xid2 = xid2
+			}()
 			err := tm.WithGlobalTx(context.Background(), &tm.GtxConfig{Name: "c17-second"}, func(ctx context.Context) error {
 				xid2 = tm.GetXID(ctx)
 				_, err := e.XA.ExecContext(ctx, "DELETE FROM t_s1 WHERE id = 3")
@@ -282,6 +299,13 @@ func run(e *sys.Env, c Case) *runResult {
 				rr.secondErr = err.Error()
 			} else if xid2 != "" {
 				e.TC.DriveCommit(xid2)
+			}
+			if c.Shape == "auto2e" && rr.xid != "" {
+				if j := e.Srv.Journal(); len(j) >= mark {
+					rr.journal2 = append([]memdb.Entry{}, j[mark:]...) // (the late rollback of the first transaction is not the second's traffic)
+				}
+				mark = 1 << 30
+				rr.phase2 = e.TC.DriveRollback(rr.xid)
 			}
 		}()
 	}
@@ -296,7 +320,15 @@ func check(e *sys.Env, c Case, rr *runResult) (clause, detail string) {
 	if rr.hung {
 		return "phase-two-hangs", "a phase-two handler never returned"
 	}
-	if c.Shape == "auto2" && rr.secondErr != "" {
+	if (c.Shape == "auto2" || c.Shape == "auto2e") && rr.xid2 != "" {
+		// whatever happened to the first transaction, the second one's XA commands run under an identifier of its own xid
+		for _, j := range rr.journal2 {
+			if m := reXA.FindStringSubmatch(j.SQL); m != nil && !strings.HasPrefix(m[2], rr.xid2+"-") {
+				return "second-transaction-foreign-identifier", d("the second global transaction %s issued %q: the identifier belongs to another transaction (the first was %s)", rr.xid2, j.SQL, rr.xid)
+			}
+		}
+	}
+	if (c.Shape == "auto2" || c.Shape == "auto2e") && rr.secondErr != "" {
 		return "second-transaction-on-connection-fails", d("the first global transaction finished (phase two %v); a second one on the same handle failed: %s", rr.phase2, rr.secondErr)
 	}
 	// 0. every business statement of the program that reached the database ran on a connection inside an ACTIVE branch
@@ -534,6 +566,12 @@ func evalCase(r *rep.Run, c Case, idx int) {
 		}
 		for _, ev := range rr.events {
 			fmt.Printf("  tc %d %s %T\n", ev.G, ev.Dir, ev.Msg.Body)
+		}
+		for _, j := range rr.journal2 {
+			fmt.Printf("  db2 %d c%d t%d %s %q err=%q\n", j.G, j.Conn, j.Txn, j.Kind, j.SQL, j.Err)
+		}
+		if c.Shape == "auto2" {
+			fmt.Printf("  second: xid=%s err=%q\n", rr.xid2, rr.secondErr)
 		}
 		fmt.Printf("  bizErr=%q commitErr=%q gtxErr=%q phase2=%v errors=%v\n", rr.bizErr, rr.commitErr, rr.gtxErr, rr.phase2, rr.errs)
 	}
